@@ -307,10 +307,19 @@ class SimpleJSONRPCDispatcher(SimpleXMLRPCDispatcher, object):
                 except Exception as ex:
                     # The response can't be converted to JSON (e.g. the ID
                     # of the request was loaded as a bean)
+                    config = self.json_config
+                    if (
+                        isinstance(request, utils.DictType)
+                        and "jsonrpc" not in request
+                    ):
+                        # JSON-RPC v1 request: answer in the same form
+                        config = config.copy()
+                        config.version = 1.0
+
                     fault = Fault(
                         -32603,
                         "{0}:{1}".format(type(ex).__name__, ex),
-                        config=self.json_config,
+                        config=config,
                     )
                     _logger.error("Error preparing JSON-RPC result: %s", fault)
                     return fault.response()
